@@ -17,13 +17,13 @@ type AmmoConfig struct {
 	VariableSources []vs.VariableSource `config:"variable_sources"`
 	Requests        []RequestConfig
 	Calls           []CallConfig
-	Scenarios       []ScenarioConfig
+	Scenarios       []ScenarioConfig `validate:"dive"`
 }
 
 // ScenarioConfig is a config for dynamic converting from map[string]interface{}
 type ScenarioConfig struct {
 	Name           string
-	Weight         int64
+	Weight         int64 `validate:"min=0"`
 	MinWaitingTime int64 `config:"min_waiting_time"`
 	Requests       []string
 }
